@@ -85,7 +85,7 @@ def _scores(tier):
     return out
 
 
-def _performance(part, seed, extra=True):
+def _performance(part, seed, extra=True, match_grace=False):
     """note-for-note performance with positive IOIs/durations (tempo varies), plus an inserted note; alignment with match/insertion/deletion/ornament"""
     import random
     import partitura.performance as pf
@@ -99,6 +99,13 @@ def _performance(part, seed, extra=True):
     bp = 0.5
     for k, i in enumerate(order):
         r = na[i]
+        if r["duration_beat"] <= 0 and match_grace:
+            # a grace note played just before the beat and matched in the alignment (used for the time maps only)
+            pid = "p%d" % k
+            gt = t + (float(r["onset_beat"] - last_beat) * bp if last_beat is not None else 0.0) - 0.06
+            notes.append(dict(id=pid, midi_pitch=int(r["pitch"]), note_on=gt, note_off=gt + 0.05, velocity=44, track=0, channel=0))
+            al.append(dict(label="match", score_id=str(r["id"]), performance_id=pid))
+            continue
         if r["duration_beat"] <= 0:
             al.append(dict(label="deletion", score_id=str(r["id"])))
             continue
@@ -175,16 +182,17 @@ def bounded(b):
                 want_ids = sorted([a["score_id"] for a in al if a["label"] == "match" and a["score_id"] in byid], key=lambda s: (float(byid[s]["onset_div"]), int(byid[s]["pitch"])))
                 b.case("codec/matched_table_pairs_the_matches_present_on_both_sides_in_score_order", list(sids) == want_ids and keys == sorted(keys), case,
                        "table ids %r, expected %r" % (list(sids)[:8], want_ids[:8]))
+            ppart_g, al_g = _performance(part, seed, extra=True, match_grace=True)
             for rm_orn in (True, False):
               case = {"score": sname, "seed": seed, "remove_ornaments": rm_orn}
-              ok, maps = b.guard("codec/time_maps_no_exception", case, lambda: pc.get_time_maps_from_alignment(ppart, part, al, remove_ornaments=rm_orn))
+              ok, maps = b.guard("codec/time_maps_no_exception", case, lambda: pc.get_time_maps_from_alignment(ppart_g, part, al_g, remove_ornaments=rm_orn))
               if ok:
                 ptime_to_stime, stime_to_ptime = maps
                 na = part.note_array()
                 byid = {str(r["id"]): r for r in na}
-                orig = {n["id"]: n for n in ppart.notes}
+                orig = {n["id"]: n for n in ppart_g.notes}
                 groups = {}
-                for a in al:
+                for a in al_g:
                     if a["label"] == "match" and a["score_id"] in byid:
                         if rm_orn and float(byid[a["score_id"]]["duration_beat"]) == 0:
                             continue  # grace notes (no score duration) are left out of the maps on request (the default)
